@@ -73,6 +73,36 @@ DtText(d, ms, off) ==
 \* (first and last year: the host's time-zone conversion may not exist there)
 DtTextDefined(v) == v.d >= DaysBeforeYear(2) /\ v.d < DaysBeforeYear(9999)
 
+(***************************** ISO text -> [ok, d, ms, isDate, off] *****************************)
+Dg(t, i) == t[i] - 48
+IsDig(t, i) == i <= Len(t) /\ t[i] >= 48 /\ t[i] <= 57
+Num2(t, i) == Dg(t, i) * 10 + Dg(t, i + 1)
+Num4(t, i) == Num2(t, i) * 100 + Num2(t, i + 2)
+DateOK(t) == Len(t) >= 10 /\ (\A i \in {1, 2, 3, 4, 6, 7, 9, 10} : IsDig(t, i)) /\ t[5] = 45 /\ t[8] = 45
+RECURSIVE FracEnd(_, _)
+FracEnd(t, i) == IF IsDig(t, i) THEN FracEnd(t, i + 1) ELSE i
+Frac3(t, i, j) ==      \* first three fraction digits as milliseconds (truncation)
+    (IF i < j THEN Dg(t, i) * 100 ELSE 0) + (IF i + 1 < j THEN Dg(t, i + 1) * 10 ELSE 0) + (IF i + 2 < j THEN Dg(t, i + 2) ELSE 0)
+IsoOf(t) ==
+    LET bad == [ok |-> FALSE, d |-> 0, ms |-> 0, isDate |-> FALSE, off |-> 0] IN
+    IF ~DateOK(t) THEN bad
+    ELSE LET y == Num4(t, 1)  mo == Num2(t, 6)  dd == Num2(t, 9) IN
+         IF y < 1 \/ mo < 1 \/ mo > 12 \/ dd < 1 \/ dd > DaysInMonth(y, mo) THEN bad
+         ELSE IF Len(t) = 10 THEN [ok |-> TRUE, d |-> DaysFromCivil(y, mo, dd), ms |-> 0, isDate |-> TRUE, off |-> 0]
+         ELSE IF Len(t) < 20 \/ t[11] # 84 \/ ~(\A i \in {12, 13, 15, 16, 18, 19} : IsDig(t, i)) \/ t[14] # 58 \/ t[17] # 58 THEN bad
+         ELSE LET h == Num2(t, 12)  mi == Num2(t, 15)  s == Num2(t, 18)
+                  hasFrac == t[20] = 46
+                  fe == IF hasFrac THEN FracEnd(t, 21) ELSE 20
+                  nfrac == fe - 21
+              IN IF h > 23 \/ mi > 59 \/ s > 59 \/ (hasFrac /\ (nfrac < 1 \/ nfrac > 6)) \/ fe > Len(t) THEN bad
+                 ELSE LET msod == ((h * 60 + mi) * 60 + s) * 1000 + (IF hasFrac THEN Frac3(t, 21, fe) ELSE 0) IN
+                      IF t[fe] = 90 /\ Len(t) = fe THEN [ok |-> TRUE, d |-> DaysFromCivil(y, mo, dd), ms |-> msod, isDate |-> FALSE, off |-> 0]
+                      ELSE IF t[fe] \in {43, 45} /\ Len(t) = fe + 5 /\ IsDig(t, fe + 1) /\ IsDig(t, fe + 2) /\ t[fe + 3] = 58 /\ IsDig(t, fe + 4) /\ IsDig(t, fe + 5)
+                                /\ Num2(t, fe + 1) <= 23 /\ Num2(t, fe + 4) <= 59
+                           THEN [ok |-> TRUE, d |-> DaysFromCivil(y, mo, dd), ms |-> msod, isDate |-> FALSE,
+                                 off |-> (IF t[fe] = 45 THEN -1 ELSE 1) * (Num2(t, fe + 1) * 60 + Num2(t, fe + 4))]
+                      ELSE bad
+
 (***************************** compact JSON (canonical text) *****************************)
 HexDigit(n) == IF n < 10 THEN cZero + n ELSE 97 + n - 10
 Hex4(n) == <<HexDigit(n \div 4096), HexDigit((n \div 256) % 16), HexDigit((n \div 16) % 16), HexDigit(n % 16)>>
